@@ -37,6 +37,7 @@ def _case(draw):
                 alpha=draw(gen.arrays(d, styles=('pos',), lo=0.2, hi=2.0, direct=False)),
                 beta=draw(gen.arrays(d, styles=('pos',), lo=0.1, hi=2.0, direct=False)), gamma=draw(gen.cell_interior(d)),
                 FL=draw(gen.limiter_names), steps=draw(st.integers(2, 4)), dirty=draw(st.sampled_from(['clean', 'value', 'bc'])),
+                zseed=draw(st.integers(0, 2 ** 31 - 1)),
                 form=draw(st.sampled_from(['faces', 'NL'])))
 
 
@@ -124,6 +125,10 @@ class World:
         self.alpha = pf.CellVariable(m, np.array(case['alpha'], float))
         self.beta = pf.CellVariable(m, np.array(case['beta'], float))
         self.gamma = pf.CellVariable(m, np.array(case['gamma'], float))
+        # non-negative coefficient with exact zeros (also in the ghost layer): the zero-handling branches of the means
+        z = np.abs(gen.expand('zeros', case.get('zseed', 1), full_shape(d)))
+        z[gen.expand('generic', case.get('zseed', 1) + 1, full_shape(d)) > 0.6] = 0.0
+        self.zcell = pf.CellVariable(m, z)
         self.FL = pf.fluxLimiter(case['FL'])
 
     def mesh_arrays(self):
@@ -138,7 +143,7 @@ class World:
         out = self.mesh_arrays()
         for fv in (self.D, self.u, self.w):
             out += arrays_of(fv)
-        for cv in (self.phi, self.alpha, self.beta, self.gamma):
+        for cv in (self.phi, self.alpha, self.beta, self.gamma, self.zcell):
             out += arrays_of(cv)
         return out
 
@@ -146,7 +151,7 @@ class World:
         out = [np.ascontiguousarray(a).tobytes() for a in self.mesh_arrays()]
         for fv in (self.D, self.u, self.w):
             out += [np.ascontiguousarray(a).tobytes() for a in arrays_of(fv)]
-        for cv in (self.alpha, self.beta, self.gamma):
+        for cv in (self.alpha, self.beta, self.gamma, self.zcell):
             out += snap_cell(cv)
         if skip_phi_values:
             # values / ghost layer / dirty bits of phi may legitimately change; its BC data may not
@@ -183,6 +188,10 @@ def check(case):
         ("geometricMean", lambda: pf.geometricMean(W.beta)),
         ("harmonicMean", lambda: pf.harmonicMean(W.beta)),
         ("upwindMean", lambda: pf.upwindMean(phi, u)),
+        ("arithmeticMean-zeros", lambda: pf.arithmeticMean(W.zcell)),
+        ("geometricMean-zeros", lambda: pf.geometricMean(W.zcell)),
+        ("harmonicMean-zeros", lambda: pf.harmonicMean(W.zcell)),
+        ("linearMean-zeros", lambda: pf.linearMean(W.zcell)),
         ("boundaryConditionsTerm", lambda: pf.boundaryConditionsTerm(phi.BCs)),
         ("cellLocations", lambda: pf.cellLocations(m)),
         ("faceLocations", lambda: pf.faceLocations(m)),
